@@ -51,6 +51,18 @@ CLAIMED = {
         "the real function (about 50 spellings). Not expressible: 'keys spread over all servers' (statistical).",
    technique="contract-based deductive verification: loop invariant + quantified lemmas (z3); one clause by bounded enumeration",
    ref="5 C11"),
+ "C14": dict(
+   text="The real body of murmur3_32 is interpreted over a low-32-bit abstraction (value mod 2^32 plus an exactness condition) and proved "
+        "equal to MurmurHash3_x86_32 transliterated from Appleby's C into 32-bit bit-vector arithmetic: one inductive loop invariant over an "
+        "uninterpreted block-state function (all string lengths), the four tail cases and fmix as straight-line VCs, plus side-condition "
+        "obligations (every >> operand masked, every index exact and in range, comparisons on exact values). For strings with code points "
+        "above 255 the result is proved to lie in 0..2^32-1. Discharged by z3 (bit-vectors; multiplication abstracted by an uninterpreted "
+        "function where that suffices). Holds for every string and every 32-bit seed.",
+   note="Trusted: the low-32-bit homomorphism of + * | ^ & << on naturals (machine-checked in lemmas/Trunc.lean, Lean 4 + Mathlib, by setup and "
+        "the thorough tier); the transliteration of the C reference (its concrete reading is compared with published SMHasher vectors and "
+        "with the real function on a bounded corpus each run - bounded stand-in, not counted as discharged); pyvc/lowbits.py; z3.",
+   technique="contract-based deductive verification: loop invariant in BV32 over the real AST (z3), Lean-checked abstraction lemmas",
+   ref="5 C14"),
 }
 REASON_PENDING = "contracts designed (DESIGN.md section 5) but not yet mechanised; not claimed"
 
